@@ -96,7 +96,7 @@ impl Config {
                 for e in tm {
                     let from = e[0].as_str().ok_or("typemap: bad entry")?;
                     let to = e[1].as_str().ok_or("typemap: bad entry")?;
-                    if from.contains('<') || from.starts_with('&') {
+                    if from.contains('<') || from.starts_with('&') || from.starts_with("impl ") {
                         c.typemap_exact.push((erase_lifetimes(&from.replace(' ', "")), to.to_string()));
                     } else {
                         c.typemap.push((from.split("::").map(|s| s.to_string()).collect(), to.to_string()));
@@ -1330,6 +1330,8 @@ enum Adapter {
     Map(syn::ExprClosure),
     Filter(syn::ExprClosure),
     FilterMap(syn::ExprClosure),
+    /// `.flat_map(f)`: f yields a (collected) sequence per element; the elements of those sequences are visited in order (nested loop)
+    FlatMap(syn::ExprClosure),
     Enumerate,
     Copied,
     Cloned,
@@ -1340,6 +1342,8 @@ enum Consumer {
     /// `.find_map(f)`: the first `Some` that f yields
     FindMap(syn::ExprClosure),
     Collect,
+    /// `.collect::<T>()` for a T that is not a Vec: the elements are collected in order, then handed to `<T>::vx_from_vec`
+    CollectInto(syn::Type),
     ForEach(syn::ExprClosure),
     ForBody(syn::Pat, syn::Block),
     Next,
@@ -1351,7 +1355,31 @@ enum Consumer {
 enum ChainSrc {
     Iter(syn::Expr),  // X.iter()
     IterMut(syn::Expr), // X.iter_mut()  (R3m: only `find`, the search reads and the found element is re-borrowed mutably)
+    /// R24: `A.chain(B)`: both sides collected, the source is their concatenation `vx_chain(A', B')`
+    Chain(syn::Expr, syn::Expr),
     Other(syn::Expr),
+}
+
+/// the turbofish type of `.collect::<T>()` when T is not `Vec<..>`
+fn collect_target(mc: &syn::ExprMethodCall) -> Option<syn::Type> {
+    let tf = mc.turbofish.as_ref()?;
+    if tf.args.len() != 1 {
+        return None;
+    }
+    match &tf.args[0] {
+        syn::GenericArgument::Type(t) => {
+            if let syn::Type::Path(tp) = t {
+                if tp.path.segments.last().map(|s| s.ident == "Vec").unwrap_or(false) {
+                    return None;
+                }
+            }
+            if matches!(t, syn::Type::Infer(_)) {
+                return None;
+            }
+            Some(t.clone())
+        }
+        _ => None,
+    }
 }
 
 fn closure_of(e: &syn::Expr) -> Option<syn::ExprClosure> {
@@ -1397,6 +1425,7 @@ fn parse_adapters(e: &syn::Expr) -> Option<(ChainSrc, Vec<Adapter>)> {
                     ("map", 1) => adapter_fn_of(&mc.args[0]).map(|c| (Adapter::Map(c), (*mc.receiver).clone())),
                     ("filter", 1) => adapter_fn_of(&mc.args[0]).map(|c| (Adapter::Filter(c), (*mc.receiver).clone())),
                     ("filter_map", 1) => adapter_fn_of(&mc.args[0]).map(|c| (Adapter::FilterMap(c), (*mc.receiver).clone())),
+                    ("flat_map", 1) => adapter_fn_of(&mc.args[0]).map(|c| (Adapter::FlatMap(c), (*mc.receiver).clone())),
                     ("enumerate", 0) => Some((Adapter::Enumerate, (*mc.receiver).clone())),
                     ("peekable", 0) => {
                         // peeking a collected Vec is looking at its first element: the adapter itself is the identity
@@ -1412,6 +1441,10 @@ fn parse_adapters(e: &syn::Expr) -> Option<(ChainSrc, Vec<Adapter>)> {
                     ("iter_mut", 0) => {
                         adapters.reverse();
                         return Some((ChainSrc::IterMut((*mc.receiver).clone()), adapters));
+                    }
+                    ("chain", 1) => {
+                        adapters.reverse();
+                        return Some((ChainSrc::Chain((*mc.receiver).clone(), mc.args[0].clone()), adapters));
                     }
                     _ => None,
                 }
@@ -1442,7 +1475,10 @@ fn parse_chain(e: &syn::Expr) -> Option<(ChainSrc, Vec<Adapter>, Consumer)> {
         ("find", 1) => Consumer::Find(closure_of(&mc.args[0])?),
         ("find_map", 1) => Consumer::FindMap(closure_of(&mc.args[0])?),
         ("for_each", 1) => Consumer::ForEach(closure_of(&mc.args[0])?),
-        ("collect", 0) => Consumer::Collect,
+        ("collect", 0) => match collect_target(mc) {
+            Some(t) => Consumer::CollectInto(t),
+            None => Consumer::Collect,
+        },
         ("next", 0) => Consumer::Next,
         ("fold", 2) => Consumer::Fold(mc.args[0].clone(), closure_of(&mc.args[1])?),
         _ => return None,
@@ -1452,6 +1488,18 @@ fn parse_chain(e: &syn::Expr) -> Option<(ChainSrc, Vec<Adapter>, Consumer)> {
 }
 
 impl<'a> LoopPass<'a> {
+    /// one side of `A.chain(B)`: an adapter chain is collected by its own loop, anything else is taken as the sequence it already is
+    fn collect_side(&mut self, e: &syn::Expr, mode_full: &str) -> Result<TokenStream, String> {
+        if let Some((src, adapters)) = parse_adapters(e) {
+            if !adapters.is_empty() || matches!(src, ChainSrc::Chain(..)) {
+                let x = self.build_chain(src, adapters, Consumer::Collect, mode_full)?;
+                return Ok(quote!(#x));
+            }
+        }
+        let mut x = e.clone();
+        self.visit_expr_mut(&mut x);
+        Ok(quote!(#x))
+    }
     /// R3: desugar one iterator chain into a single index loop.
     fn build_chain(&mut self, src: ChainSrc, adapters: Vec<Adapter>, consumer: Consumer, mode_full: &str) -> Result<syn::Expr, String> {
         // mode syntax: "ref" | "val" optionally followed by ":<element type of the collected Vec>"
@@ -1459,6 +1507,15 @@ impl<'a> LoopPass<'a> {
             Some(i) => (&mode_full[..i], Some(syn::parse_str(&mode_full[i + 1..]).map_err(|e| format!("bad recipe: chain element type: {}", e))?)),
             None => (mode_full, None),
         };
+        if adapters.is_empty() && matches!(consumer, Consumer::Collect) {
+            if let ChainSrc::Chain(a, b) = &src {
+                // nothing between the concatenation and the collect: the collected sequence is the concatenation itself
+                let ea = self.collect_side(a, mode_full)?;
+                let eb = self.collect_side(b, mode_full)?;
+                bump(self.counts, "R24.chain_concat");
+                return Ok(syn::parse_quote!(vx_chain(#ea, #eb)));
+            }
+        }
         let k = self.loops;
         self.loops += 1;
         let s_id = syn::Ident::new(&format!("__s{}", k), Span::call_site());
@@ -1511,6 +1568,12 @@ impl<'a> LoopPass<'a> {
                     }
                     match #r_id { Some(#ix_id) => Some(#found_item), None => None }
                 }));
+            }
+            ChainSrc::Chain(a, b) => {
+                let ea = self.collect_side(a, mode_full)?;
+                let eb = self.collect_side(b, mode_full)?;
+                bump(self.counts, "R24.chain_concat");
+                (quote!(vx_chain(#ea, #eb)), mode == "ref")
             }
             ChainSrc::Other(x) => {
                 let mut x2 = x.clone();
@@ -1579,6 +1642,8 @@ impl<'a> LoopPass<'a> {
         };
         let mut filtered = false;
         let mut counter: Option<syn::Ident> = None;
+        // R25 flat_map: (statements of the outer loop body, inner sequence, inner index, marker of the inner loop)
+        let mut flat: Option<(Vec<TokenStream>, syn::Ident, syn::Ident, TokenStream)> = None;
         for a in &adapters {
             n += 1;
             let nxt = syn::Ident::new(&format!("__x{}_{}", k, n), Span::call_site());
@@ -1597,6 +1662,22 @@ impl<'a> LoopPass<'a> {
                     filtered = true;
                     let e = inline(self, c, quote!(#cur))?;
                     body.push(quote!(let #nxt = match #e { Some(__v) => __v, None => { continue; } };));
+                    cur = nxt;
+                }
+                Adapter::FlatMap(c) => {
+                    if flat.is_some() || filtered {
+                        return Err("unsupported construct: flat_map after a filter or a second flat_map".into());
+                    }
+                    let e = inline(self, c, quote!(#cur))?;
+                    let in_id = syn::Ident::new(&format!("__in{}", k), Span::call_site());
+                    let j_id = syn::Ident::new(&format!("__j{}", k), Span::call_site());
+                    let k2 = self.loops;
+                    self.loops += 1;
+                    body.push(quote!(let #in_id = #e; let mut #j_id: usize = 0;));
+                    let pre = std::mem::take(&mut body);
+                    body.push(quote!(let #nxt = #in_id[#j_id]; #j_id = #j_id + 1;));
+                    flat = Some((pre, in_id, j_id, loop_marker(k2).to_token_stream()));
+                    bump(self.counts, "R25.flat_map_nested_loop");
                     cur = nxt;
                 }
                 Adapter::Enumerate => {
@@ -1621,6 +1702,9 @@ impl<'a> LoopPass<'a> {
             }
         }
         bump(self.counts, "R3.chain_to_loop");
+        if flat.is_some() && !matches!(consumer, Consumer::Collect | Consumer::CollectInto(_)) {
+            return Err("unsupported construct: flat_map consumed by something other than collect".into());
+        }
         let e: syn::Expr = match consumer {
             Consumer::Any(c) => {
                 let r_id = syn::Ident::new(&format!("__any{}", k), Span::call_site());
@@ -1699,16 +1783,35 @@ impl<'a> LoopPass<'a> {
                     Some(t) => quote!(let mut #r_id: Vec<#t> = Vec::new();),
                     None => quote!(let mut #r_id = Vec::new();),
                 };
+                let lp: TokenStream = match &flat {
+                    None => quote!(while #i_id < #s_id.len() { #marker #(#body)* #r_id.push(#cur); }),
+                    Some((pre, in_id, j_id, m2)) => quote!(while #i_id < #s_id.len() { #marker #(#pre)* while #j_id < #in_id.len() { #m2 #(#body)* #r_id.push(#cur); } }),
+                };
                 syn::parse_quote!({
                     let #s_id = #seq_init;
                     let mut #i_id: usize = 0;
                     #decl
-                    while #i_id < #s_id.len() {
-                        #marker
-                        #(#body)*
-                        #r_id.push(#cur);
-                    }
+                    #lp
                     #r_id
+                })
+            }
+            Consumer::CollectInto(target) => {
+                let r_id = syn::Ident::new(&format!("__acc{}", k), Span::call_site());
+                let decl: TokenStream = match &elem_ty {
+                    Some(t) => quote!(let mut #r_id: Vec<#t> = Vec::new();),
+                    None => quote!(let mut #r_id = Vec::new();),
+                };
+                bump(self.counts, "R24.collect_into");
+                let lp: TokenStream = match &flat {
+                    None => quote!(while #i_id < #s_id.len() { #marker #(#body)* #r_id.push(#cur); }),
+                    Some((pre, in_id, j_id, m2)) => quote!(while #i_id < #s_id.len() { #marker #(#pre)* while #j_id < #in_id.len() { #m2 #(#body)* #r_id.push(#cur); } }),
+                };
+                syn::parse_quote!({
+                    let #s_id = #seq_init;
+                    let mut #i_id: usize = 0;
+                    #decl
+                    #lp
+                    <#target>::vx_from_vec(#r_id)
                 })
             }
             Consumer::Fold(init, c) => {
